@@ -263,14 +263,15 @@ fn main() {
     });
 
     // S4: long operands
-    let lens: Vec<usize> = tier.pick(vec![19, 20, 40, 100, 101, 102, 103, 300], vec![19, 20, 40, 100, 101, 102, 103, 300, 590, 1500]);
+    let lens: Vec<usize> = tier.pick(vec![19, 20, 40, 100, 101, 102, 103, 300, 330], vec![19, 20, 40, 100, 101, 102, 103, 300, 308, 309, 330, 590, 1500]);
     let mut s4: Vec<Dec> = vec![];
     for (_, n) in long_ints(&lens, run.seed()) {
         for s in [0i128, 17, -2000, 2000] {
             s4.push(Dec { n: n.clone(), s });
         }
     }
-    let s4p: Vec<u64> = tier.pick(vec![1, 3, 100], vec![1, 2, 3, 5, 50, 100, 150]);
+    // (the statement says 'for every precision from 1 upwards': a few precisions beyond the f64 exponent range too)
+    let s4p: Vec<u64> = tier.pick(vec![1, 3, 100, 310, 400], vec![1, 2, 3, 5, 50, 100, 150, 307, 308, 309, 320, 400, 1000]);
     run.bound("S4_lengths", json!(lens));
     run.bound("S4_precisions", json!(s4p));
     run.par_opts("S4 long operands", s4.len(), 60, &|i| json!({"x": s4[i].show()}), |i| {
